@@ -2379,8 +2379,9 @@ func (p *Parser) parseDimension() (*Dimension, error) {
 	if err != nil {
 		return nil, err
 	} else if re != nil {
-		// Consume all trailing whitespace.
-		p.consumeWhitespace()
+		// Consume all trailing whitespace and comments.
+		p.ScanIgnoreWhitespace()
+		p.Unscan()
 
 		return &Dimension{Expr: re}, nil
 	}
